@@ -102,13 +102,15 @@ func c14History(c *wk.Ctx, idx int64, ops []nop) (nForged int, viol bool) {
 		}
 		return map[string]any{"index": idx, "history": os}
 	}
+	rx := newRx()
 	feed := func(b []byte) {
-		frame, err := s.Parse(b)
+		frame, err := s.Parse(rx.load(b))
 		if err != nil {
 			panic("HARNESS BUG: frame rejected: " + err.Error())
 		}
 		h.ProcessPacket(frame)
 		s.Notify(frame)
+		rx.scribble() // the next ReadFrom overwrites the receive buffer
 	}
 	fail := func(key, detail string, extra map[string]any) {
 		if !viol {
